@@ -17,9 +17,10 @@ MANIFEST = {
             "binding — for every REQ/OPT/REST/POST/BLOCK combination and every format string in which `*` comes last; a "
             "declaration without rest is accepted by the model of checkAndPropagateArgs for k positional arguments exactly when "
             "req <= k <= req+opt (composition with ArgsP.check_args_positional); a declaration required ++ [rest] ++ trailing "
-            "is accepted exactly when req+trailing <= k (C26_arity_rest, through the star branch of the walk). With optional "
-            "parameters before the rest, or a block declaration after it, the walk departs from the binding: refuted by "
-            "computed witnesses and kept as findings. "
+            "is accepted exactly when req+trailing <= k (C26_arity_rest, through the star branch of the walk), also when "
+            "parameters with a default — the `?Block` emitted for MRB_ARGS_BLOCK() / `&` — follow (C26_arity_rest_block; the "
+            "code before the repair is a refuted variant). With optional parameters before the rest and trailing ones after "
+            "it the walk departs from the binding: refuted by a computed witness and kept as a finding. "
             "Tie: the real ti-c2json runs on generated C sources (mrb_define_method / _id / class_method, mrbc_define_method, "
             "one-line and multi-line specs) and its emitted arguments are compared with the model; end to end, ti is then run "
             "with the produced configuration on calls with 0..6 arguments; the output is converted twice and compared byte "
@@ -35,7 +36,7 @@ RULE = ("C sources of 8 bindings each: formats over 15 letters with |, *, &, !, 
         "fitting types; non-trivial = the binding has an optional, rest or trailing part")
 TRUSTED = ["lib/c2gen.py: accepted counts of a binding = req+post <= k and (rest or k <= req+opt+post)"]
 ASSUMPTIONS = ["a format with `*` has no argument letters after it (mruby's `*` takes everything left)"]
-PARTIAL = ["C26_rest_block_refuted: REST followed by BLOCK (kept finding)", "C26_opt_post_refuted: OPT together with POST (kept finding)",
+PARTIAL = ["C26_opt_post_refuted: OPT together with POST (kept finding)",
            "OPT together with REST: arity through the binder is explored end to end (and is the finding), not proved",
            "the mrb_get_args keyword format `:` is not converted (not generated)"]
 
@@ -53,8 +54,6 @@ def coq_aspec(a):
 
 
 def classify(shape, aspec):
-    if shape["rest"] and aspec.get("block"):
-        return "rest_block"
     if shape["rest"] and shape["opt"] and shape["post"]:
         return "opt_post"
     return "other"
@@ -154,8 +153,6 @@ def accepted(aspec_text, k):
 
 
 def replay_finding(ctx, k):
-    if k["id"] == "C26-rest-block":
-        return not accepted("MRB_ARGS_REQ(1)|MRB_ARGS_REST()|MRB_ARGS_BLOCK()", 2)
     if k["id"] == "C26-opt-post":
         return accepted("MRB_ARGS_REQ(1)|MRB_ARGS_OPT(1)|MRB_ARGS_REST()|MRB_ARGS_POST(1)", 1)
     return None
